@@ -373,7 +373,7 @@ pub struct RawTok {
     pub kind: u32,
 }
 impl RawTok {
-    fn from_tok(t: Tok) -> RawTok {
+    pub fn from_tok(t: Tok) -> RawTok {
         let r = RawTok {
             magic: t.magic,
             id: t.id,
@@ -548,47 +548,78 @@ impl<M: OutMode> Future for NdFut<M> {
     }
 }
 
-/// Merge source. `P = PhantomPinned` makes it `!Unpin`, `P = ()` makes it `Unpin`.
-pub struct SimSrc<P> {
+/// Merge source. `P = PhantomPinned` makes it `!Unpin`, `P = ()` makes it `Unpin`; `M` is the
+/// item mode (tracked `Tok` or plain `RawTok`).
+pub struct SimSrc<P, M = Plain> {
     pub id: u32,
     _pin: PhantomData<P>,
+    _m: PhantomData<fn() -> M>,
 }
-impl<P> SimSrc<P> {
+impl<P, M> SimSrc<P, M> {
     pub fn new(id: u32) -> Self {
         SimSrc {
             id,
             _pin: PhantomData,
+            _m: PhantomData,
         }
     }
 }
-impl<P> Stream for SimSrc<P> {
-    type Item = Tok;
-    fn poll_next(self: Pin<&mut Self>, cx: &mut Context<'_>) -> Poll<Option<Tok>> {
+fn src_hint(id: u32) -> (usize, Option<usize>) {
+    with(|w| {
+        if !w.src_hints {
+            return (0, None);
+        }
+        let c = &w.children[id as usize];
+        if c.avail == INF {
+            (usize::MAX, None)
+        } else if c.closed {
+            (c.avail as usize, Some(c.avail as usize))
+        } else {
+            (c.avail as usize, None)
+        }
+    })
+}
+impl<P, M: OutMode> Stream for SimSrc<P, M> {
+    type Item = M::Out;
+    fn poll_next(self: Pin<&mut Self>, cx: &mut Context<'_>) -> Poll<Option<M::Out>> {
         let addr = &*self as *const Self as usize;
-        src_poll(self.id, addr, cx)
+        src_poll(self.id, addr, cx).map(|o| o.map(|t| M::conv(t, false)))
     }
     /// Honest hint (when the run asks for one): what is available now is a lower bound; a closed
     /// source yields exactly that much; an always-ready source answers like `stream::repeat`.
     fn size_hint(&self) -> (usize, Option<usize>) {
-        let id = self.id;
-        with(|w| {
-            if !w.src_hints {
-                return (0, None);
-            }
-            let c = &w.children[id as usize];
-            if c.avail == INF {
-                (usize::MAX, None)
-            } else if c.closed {
-                (c.avail as usize, Some(c.avail as usize))
-            } else {
-                (c.avail as usize, None)
-            }
-        })
+        src_hint(self.id)
     }
 }
-impl<P> Drop for SimSrc<P> {
+impl<P, M> Drop for SimSrc<P, M> {
     fn drop(&mut self) {
         child_drop(self.id, self as *const Self as usize);
+    }
+}
+
+/// A source type without drop glue.
+pub struct NdSrc<P, M = Plain> {
+    pub id: u32,
+    _pin: PhantomData<P>,
+    _m: PhantomData<fn() -> M>,
+}
+impl<P, M> NdSrc<P, M> {
+    pub fn new(id: u32) -> Self {
+        NdSrc {
+            id,
+            _pin: PhantomData,
+            _m: PhantomData,
+        }
+    }
+}
+impl<P, M: OutMode> Stream for NdSrc<P, M> {
+    type Item = M::Out;
+    fn poll_next(self: Pin<&mut Self>, cx: &mut Context<'_>) -> Poll<Option<M::Out>> {
+        let addr = &*self as *const Self as usize;
+        src_poll(self.id, addr, cx).map(|o| o.map(|t| M::conv(t, false)))
+    }
+    fn size_hint(&self) -> (usize, Option<usize>) {
+        src_hint(self.id)
     }
 }
 
@@ -708,6 +739,55 @@ impl UpMode for UpIdx {
     }
     fn err(_t: Tok) -> Option<u32> {
         None
+    }
+}
+
+/// Upstream items of any future shape.
+pub struct UpG<F>(PhantomData<fn() -> F>);
+pub trait MakeFut: 'static {
+    fn make_fut(id: u32) -> Self;
+}
+impl<M: 'static> MakeFut for SimFut<M> {
+    fn make_fut(id: u32) -> Self {
+        SimFut::new(id)
+    }
+}
+impl<M: 'static> MakeFut for NdFut<M> {
+    fn make_fut(id: u32) -> Self {
+        NdFut::new(id)
+    }
+}
+impl<F: MakeFut> UpMode for UpG<F> {
+    type Item = F;
+    fn fut(id: u32) -> F {
+        F::make_fut(id)
+    }
+    fn err(_t: Tok) -> Option<F> {
+        None
+    }
+}
+/// Try-upstream items `Result<F, E>` with the error in tracked or plain form.
+pub struct UpTryG<F, E>(PhantomData<fn() -> (F, E)>);
+pub trait FromTok: 'static {
+    fn from_tok(t: Tok) -> Self;
+}
+impl FromTok for Tok {
+    fn from_tok(t: Tok) -> Tok {
+        t
+    }
+}
+impl FromTok for RawTok {
+    fn from_tok(t: Tok) -> RawTok {
+        RawTok::from_tok(t)
+    }
+}
+impl<F: MakeFut, E: FromTok> UpMode for UpTryG<F, E> {
+    type Item = Result<F, E>;
+    fn fut(id: u32) -> Self::Item {
+        Ok(F::make_fut(id))
+    }
+    fn err(t: Tok) -> Option<Self::Item> {
+        Some(Err(E::from_tok(t)))
     }
 }
 
